@@ -666,7 +666,12 @@ func Request(t *rapid.T, tb model.TableSpec, cfg Cfg) model.ReqSpec {
 	nm := rapid.SampledFrom([]int{0, 0, 0, 1, 1, 2}).Draw(t, "nmut")
 	trailing := false
 	for i := 0; i < nm; i++ {
-		switch rapid.IntRange(0, 11).Draw(t, "mut") {
+		switch rapid.IntRange(0, 12).Draw(t, "mut") {
+		case 12: // an empty segment in the interior ("/a//b"): a segment like any other
+			if len(segs) >= 2 {
+				j := rapid.IntRange(1, len(segs)-1).Draw(t, "emptypos")
+				segs = append(segs[:j], append([]string{""}, segs[j:]...)...)
+			}
 		case 0, 1: // edit one segment
 			if len(segs) > 0 {
 				j := rapid.IntRange(0, len(segs)-1).Draw(t, "editpos")
